@@ -798,7 +798,7 @@ def _scale_cases(tier, rng):
 def cases(prop, tier, seed):
   rng = random.Random(1000003 * int(seed) + 18)
   out = _systematic() + _interleaved() + _boundary_systematic() + _family_systematic()
-  n_api, n_e2e, n_timed, n_sock, n_lib = (380, 140, 170, 70, 40) if tier == 'quick' else (8000, 1500, 4000, 1500, 1200)
+  n_api, n_e2e, n_timed, n_sock, n_lib = (300, 120, 140, 60, 30) if tier == 'quick' else (8000, 1500, 4000, 1500, 1200)
   for _ in range(n_api):
     out.append(_gen_api(rng))
   for _ in range(n_e2e):
@@ -1515,7 +1515,7 @@ def replay_behaviours(prop, tier, seed):
     raise RuntimeError('probe failed: ' + probe['err'])
   eq = probe['ok']['eq']
   cfg = 'Varz_sim_eq.cfg' if eq else 'Varz_sim_noeq.cfg'
-  num = 180 if tier == 'quick' else 2000
+  num = 150 if tier == 'quick' else 2000
   r, behs = tlc.simulate_behaviours('Varz', cfg, num=num, depth=22, seed=int(seed) + 1, timeout=900)
   if not behs:
     raise RuntimeError('no behaviours from TLC simulate:\n' + r.stdout[-2000:])
@@ -1525,7 +1525,7 @@ def replay_behaviours(prop, tier, seed):
   aged = 0
   if eq:
     # behaviours with the clock: one model unit = MAX_AGG_AGE / MaxAge = 150 s of the real low-resolution clock
-    r2, behs2 = tlc.simulate_behaviours('Varz', 'Varz_sim_age.cfg', num=(60 if tier == 'quick' else 1200), depth=24,
+    r2, behs2 = tlc.simulate_behaviours('Varz', 'Varz_sim_age.cfg', num=(50 if tier == 'quick' else 1200), depth=24,
                                         seed=int(seed) + 7, timeout=900)
     if not behs2:
       raise RuntimeError('no behaviours from TLC simulate (age):\n' + r2.stdout[-2000:])
